@@ -13,7 +13,11 @@ var tokenPool = func() []string {
 	p := []string{"+", "-", "*", "/", "%", "=", "==", "!=", "<>", "<", ">", "<=", ">=", "<=>", "||", "->", "::", "^",
 		"(", ")", "[", "]", "{", "}", ",", ".", ";", ":", "?", "(", ")", "(", ")", ",", ",",
 		"a", "b", "t", "x", "db", "f", "1", "2", "0", "1.5", "1e3", "0x1F", "'s'", "''", "`q`", "\"q\"", "{p:UInt8}", "NULL", "@", "@@v", "$$x$$",
-		"--c\n", "/*c*/", "#c\n", "'", "\"", "`", "\\", "$", "!", "|", "é", "\x00", "\xff"}
+		"--c\n", "/*c*/", "#c\n", "'", "\"", "`", "\\", "$", "!", "|", "é", "\x00", "\xff",
+		// Unicode class representatives: decimal digits of other scripts, letters, spaces, look-alike punctuation
+		"٣", "५", "５", "٣a", "a٣", "中", "ı", "ſ", "\u00a0", "\u2212", "\u2018q\u2019", "\u201cq\u201d", "\ufeff", "€", "x'41€'", "'\\x中'",
+		// string literals whose CONTENT is parsed again somewhere (interval strings, kql pipelines, formats, regexps)
+		"'1 day'", "'1 SQL_TSI_'", "'2 SQL_TSI_HOUR'", "'1'", "' '", "'%Y-%m'", "'T | filter a == \\''", "'T | project a'", "'a.*'", "'\\''", "'\\\\'"}
 	for s := range token.Keywords {
 		p = append(p, s)
 	}
